@@ -37,6 +37,8 @@ func runStatic(prog *Prog, sc StaticCheck) *StaticResult {
 		return runSpawn(prog, sc)
 	case "once-init":
 		return runOnceInit(prog, sc)
+	case "struct-init":
+		return runStructInit(prog, sc)
 	case "call-order":
 		return runCallOrder(prog, sc)
 	case "import-check":
@@ -764,5 +766,63 @@ func runCallOrder(prog *Prog, sc StaticCheck) *StaticResult {
 			res.Failures = append(res.Failures, fmt.Sprintf("%s: %s (%s) does not precede %s (%s) on every path", sc.Args["func"], order[i], posOf(prog, a[0].Pos()), order[i+1], posOf(prog, b[0].Pos())))
 		}
 	}
+	return res
+}
+
+// runStructInit: every object of struct type <type> allocated in <func> has each listed field initialised from the
+// named parameter of <func> ("field:param" pairs) — no construction site forgets or mixes up a field.
+func runStructInit(prog *Prog, sc StaticCheck) *StaticResult {
+	res := &StaticResult{Name: sc.Name, Kind: sc.Kind}
+	fn := prog.FindFunc(modPath+"/"+sc.Pkg, sc.Args["func"])
+	if fn == nil {
+		res.Obligations = 1
+		res.Failures = append(res.Failures, "binding: function "+sc.Args["func"]+" not found")
+		return res
+	}
+	pairs := map[string]string{}
+	for _, fp := range strings.Split(sc.Args["fields"], ",") {
+		if i := strings.Index(fp, ":"); i > 0 {
+			pairs[strings.TrimSpace(fp[:i])] = strings.TrimSpace(fp[i+1:])
+		}
+	}
+	nalloc := 0
+	for _, b := range fn.Blocks {
+		for _, in := range b.Instrs {
+			a, ok := in.(*ssa.Alloc)
+			if !ok || namedOf(a.Type()) != sc.Args["type"] {
+				continue
+			}
+			nalloc++
+			got := map[string]ssa.Value{}
+			for _, r := range *a.Referrers() {
+				if fa, ok := r.(*ssa.FieldAddr); ok {
+					for _, rr := range *fa.Referrers() {
+						if st, ok := rr.(*ssa.Store); ok && st.Addr == fa {
+							f := fieldName(fa)
+							got[f[strings.LastIndex(f, ".")+1:]] = st.Val
+						}
+					}
+				}
+			}
+			for f, p := range pairs {
+				res.Obligations++
+				v := got[f]
+				if par, ok := v.(*ssa.Parameter); ok && par.Name() == p {
+					res.Discharged++
+					continue
+				}
+				what := "nothing"
+				if v != nil {
+					what = v.Name()
+				}
+				res.Failures = append(res.Failures, fmt.Sprintf("%s: %s literal at %s initialises field %s from %s, not from parameter %s", sc.Args["func"], sc.Args["type"], posOf(prog, a.Pos()), f, what, p))
+			}
+		}
+	}
+	if nalloc == 0 {
+		res.Obligations++
+		res.Failures = append(res.Failures, fmt.Sprintf("%s allocates no %s (stale)", sc.Args["func"], sc.Args["type"]))
+	}
+	res.Samples = append(res.Samples, map[string]interface{}{"obligation": fmt.Sprintf("%s#every %s literal takes %s", sc.Args["func"], sc.Args["type"], sc.Args["fields"]), "backend": "def-use", "literals": nalloc})
 	return res
 }
